@@ -112,12 +112,18 @@ fn record_of(tags: &[String]) -> Dict {
 }
 
 /// The record store behind relationship queries: a fixed little database derived from the op.
-fn store() -> BTreeMap<&'static str, Vec<&'static str>> {
+fn store(with_ids: bool) -> BTreeMap<&'static str, Vec<&'static str>> {
     let mut m = BTreeMap::new();
     m.insert("r0", vec!["id=@r0", "d0"]);
     m.insert("r1", vec!["id=@r1", "d1", "xRef=@r0"]);
-    m.insert("r2", vec!["id=@r2", "d2", "xRef=@r1", "yRef=@r3"]);
-    m.insert("r3", vec!["id=@r3", "d3", "yRef=@r2", "xRef=@r3"]);
+    if with_ids {
+        m.insert("r2", vec!["id=@r2", "d2", "xRef=@r1", "yRef=@r3"]);
+        m.insert("r3", vec!["id=@r3", "d3", "yRef=@r2", "xRef=@r3"]);
+    } else {
+        // the records of the cycle do not carry their own id (the store finds them by ref value)
+        m.insert("r2", vec!["d2", "yRef=@r3"]);
+        m.insert("r3", vec!["d3", "yRef=@r2", "xRef=@r3"]);
+    }
     m
 }
 
@@ -161,7 +167,7 @@ pub fn answer(ns: &'static Namespace<'static>, op: &Op) -> String {
         }
         "has_relationship" => {
             let rec = record_of(&op.rec);
-            let db = store();
+            let db = store(!op.rec.iter().any(|t| t == "noIds"));
             let resolve = |r: &Ref| db.get(r.value.as_str()).map(|tags| record_of(&tags.iter().map(|s| s.to_string()).collect::<Vec<_>>()));
             let term = if op.b.is_empty() { None } else { Some(b.clone()) };
             let target = op.rec.iter().find_map(|t| t.strip_prefix("target=@")).map(Ref::from);
@@ -219,7 +225,7 @@ pub fn gen_taxonomy_n(rng: &mut Rng, n: usize) -> (String, Vec<String>) {
     let mut rows: Vec<String> = Vec::new();
     let mut syms: Vec<String> = Vec::new();
     let mut row = |def: &str, is: &[&str], extra: &[(&str, String)]| -> String {
-        let cols = ["def", "is", "tagOn", "containedBy", "transitive", "reciprocalOf", "computedFromReciprocal", "mandatory", "children"];
+        let cols = ["def", "is", "tagOn", "containedBy", "transitive", "reciprocalOf", "computedFromReciprocal", "mandatory", "children", "capacity", "doc"];
         let mut cells: Vec<String> = vec![String::new(); cols.len()];
         cells[0] = format!("^{def}");
         if !is.is_empty() {
@@ -244,6 +250,18 @@ pub fn gen_taxonomy_n(rng: &mut Rng, n: usize) -> (String, Vec<String>) {
         ("relationship", vec!["symbol"]),
         ("lib", vec!["marker"]),
     ] {
+        // the `entity` def is not the same in every namespace of a process (and may be missing)
+        if d == "entity" {
+            match rng.below(8) {
+                0 => continue,
+                1 | 2 => {
+                    rows.push(row(d, &is, &[("doc", format!("\"entity of taxonomy {}\"", rng.below(1000)))]));
+                    syms.push(d.to_string());
+                    continue;
+                }
+                _ => {}
+            }
+        }
         rows.push(row(d, &is, &[]));
         syms.push(d.to_string());
     }
@@ -294,6 +312,13 @@ pub fn gen_taxonomy_n(rng: &mut Rng, n: usize) -> (String, Vec<String>) {
         if rng.chance(1, 8) {
             extra.push(("children", "\"d1\\nd2 d3\"".into()));
         }
+        // defs carry ordinary value tags too: quantities in different units, text
+        if rng.chance(1, 3) {
+            extra.push(("capacity", format!("{}{}", rng.range(1, 12), rng.pick_str(&["kW", "cfm", "m", "", "°C"]))));
+        }
+        if rng.chance(1, 5) {
+            extra.push(("doc", format!("\"about d{i}\"")));
+        }
         rows.push(row(&name, &isr, &extra));
         d_names.push(name.clone());
         syms.push(name);
@@ -324,7 +349,7 @@ pub fn gen_taxonomy_n(rng: &mut Rng, n: usize) -> (String, Vec<String>) {
     }
     syms.push("ghost".into());
     syms.push("nothing".into());
-    let mut text = String::from("ver:\"3.0\"\ndef,is,tagOn,containedBy,transitive,reciprocalOf,computedFromReciprocal,mandatory,children\n");
+    let mut text = String::from("ver:\"3.0\"\ndef,is,tagOn,containedBy,transitive,reciprocalOf,computedFromReciprocal,mandatory,children,capacity,doc\n");
     for r in rows {
         text.push_str(&r);
         text.push('\n');
@@ -372,7 +397,10 @@ pub fn gen_op(rng: &mut Rng, syms: &[String], hot: &[String]) -> Op {
             }
             op.rec = vec![format!("id=@r{}", rng.below(4)), pick(rng), format!("xRef=@r{}", rng.below(5)), format!("yRef=@r{}", rng.below(4))];
             if rng.chance(2, 3) {
-                op.rec.push(format!("target=@r{}", rng.below(4)));
+                op.rec.push(format!("target=@r{}", rng.below(5)));
+            }
+            if rng.chance(1, 3) {
+                op.rec.push("noIds".into());
             }
         }
         "filter_ctx" => {
@@ -1117,7 +1145,11 @@ impl Engine for C14 {
 
     fn isolate_every(&self, unit: &UnitSpec) -> Option<u64> {
         // answers must not depend on namespaces queried earlier in the same process
-        if unit.name.starts_with("bulk:") || unit.name.starts_with("chain:") || unit.name == "real-defs" {
+        if unit.name == "real-defs" {
+            // the shipped defs after generated taxonomies in one process: whatever is resolved once
+            // per process must not be taken from the wrong namespace
+            Some(4)
+        } else if unit.name.starts_with("bulk:") || unit.name.starts_with("chain:") {
             None
         } else if unit.name.starts_with("pair:") {
             Some(8)
@@ -1152,7 +1184,19 @@ fn run_explicit(case: &Case, _ctx: &Ctx) -> Outcome {
     run_case(case)
 }
 
+/// Process-wide lazily built tables of the library (units, zones) are built here, on the main
+/// thread, before any case runs: their construction creates HashMaps, which advances the
+/// per-thread RandomState counter of whichever thread happens to run it - done inside a case it
+/// would make that case's hash seeds (and with them the order of its lock operations) depend on
+/// whether an earlier case of the process had already done it.
+fn warm_up() {
+    let _ = libhaystack::units::get_unit("kW");
+    let _ = zinc_from_str("[1kW, 2021-01-01T00:00:00-05:00 New_York, 2021-01-01T00:00:00Z UTC, C(1,2), `u`, @r \"d\"]");
+    let _ = Filter::try_from("a == 1kW and b->c");
+}
+
 fn main() {
+    warm_up();
     std::env::remove_var("SHUTTLE_RANDOM_SEED");
     cli::main_with(engine_for, run_explicit);
 }
